@@ -4,7 +4,7 @@ from __future__ import annotations
 import ast
 
 from sa import cfg as cfgmod
-from sa.cfg import ENTRY
+from sa.cfg import ENTRY, EXIT_RET
 from sa.core import AnalysisError, call_name, text
 
 from .effects import Effects
@@ -27,6 +27,7 @@ def run(chk):
     r09d(chk, 'R15.f')
     r15g(chk)
     r15h(chk)
+    r15i(chk)
 
 
 def _is_filtered(e):
@@ -341,3 +342,21 @@ def r15h(chk, rid='R15.h'):
                     bad.append(f'{before} -> {[r.tag for r in rules]}: ' + '; '.join(probs))
     chk.extra['clean_namespace_cases'] = n
     chk.ob(rid, SHEET, 'CSSStyleSheet._cleanNamespaces', f'all {n} rule lists end with one rule per prefix and per URI, equal to the mapping', not bad, f'{len(bad)} lists do not, e.g. ' + ' | '.join(bad[:2]))
+
+
+def r15i(chk, rid='R15.i'):
+    chk.rule(rid, "a selector carries the namespaces it was resolved with: on every path of Selector._setSelectorText that commits a new sequence (passes _setSeq) the selector's own namespace snapshot (__namespaces) is stored as well, from _getUsedNamespaces(); a selector that is detached from its sheet later resolves and serialises its prefixes from that snapshot")
+    SELF = 'cssutils/css/selector.py'
+    m = chk.repo.mod(SELF)
+    fn = m.get('Selector._setSelectorText')
+    g = cfgmod.CFG(fn)
+    commits = [n for n in g.nodes if any(call_name(c) == 'self._setSeq' for c in cfgmod.calls_at(n))]
+    snaps = [n for n in g.nodes if n.kind == 'stmt' and isinstance(n.stmt, ast.Assign) and any(text(t) == 'self.__namespaces' for t in n.stmt.targets) and '_getUsedNamespaces' in text(n.stmt.value)]
+    if len(commits) != 1:
+        raise AnalysisError(f'Selector._setSelectorText: {len(commits)} _setSeq commits found')
+    ok = bool(snaps)
+    path = []
+    if ok:
+        ok, path = g.all_paths_pass([commits[0].id], lambda n: n in snaps, targets=[EXIT_RET])
+    chk.ob(rid, SELF, 'Selector._setSelectorText', 'every commit of a new sequence is followed by the refresh of the namespace snapshot', ok,
+           'a path commits the sequence without the snapshot: ' + ' -> '.join((path or [])[-4:]) + ' - after the rule is detached (deleteRule) its prefixes resolve against an empty or outdated mapping and are serialised as |name')
